@@ -415,7 +415,18 @@ def run(tier, seed):
     for r in ro:
         viols.extend(r["violations"])
     n_overlap = sum(r["n"] for r in ro)
-    cov = dict(overlap_schedules=n_overlap, states=sum(r["states"] for r in res), transitions=n * depth + n_overlap, traces_validated_against_impl=n, evaluations=n,
+    rp = pool.run_tasks("checks.c13:pollute_task", [(i, 16) for i in range(16)], fresh_each=True, chunksize=1)
+    cands = [c for r in rp for c in r["candidates"]][:64]
+    n_pollute = sum(r["n"] for r in rp)
+    if cands:
+        for r in pool.run_tasks("checks.c13:alone_task", cands, fresh_each=True, chunksize=1):
+            if r["alone_ok"] and r["alone"] != r["after"]:
+                from mc import words as _w
+                viols.append({"property": "C13", "engine": "parser", "signature": ["C13", "parse", "after:whole-language", "verdict-depends-on-history", r["word"][len(S_PREFIX()):][0:2][-1]],
+                              "what": "after every command's valid forms and the factory's definitions were used in the process, %r gives %s; alone in a fresh interpreter %s" % (
+                                  _w.show(tuple(r["word"]))[-120:], r["after"], r["alone"]),
+                              "case": {"pollute_word": r["word"]}, "witness": _w.show(tuple(r["word"]))[-160:], "observed": r["after"]})
+    cov = dict(overlap_schedules=n_overlap, polluted_process_probes=n_pollute, states=sum(r["states"] for r in res), transitions=n * depth + n_overlap, traces_validated_against_impl=n, evaluations=n,
                distinct_nontrivial=len(btasks),
                rule="E1: every history of <= %d of the %d events (parse of %d scripts on reused parser P1 / reused parser P2 / a fresh parser; %d FiltersSet "
                     "operations on F1 / F2) without deduplication; each event's outcome (verdict, error, error_pos, tree, serialisation; or return/exception "
@@ -428,6 +439,64 @@ def run(tier, seed):
                              "within a history nothing is reset"])
 
 
+# ---- the whole language in a process that has seen the whole language ---------------------------------------------------------
+# (state that builds up across objects - memo tables, caches keyed too coarsely - shows when a use that is legal for one command has
+# been seen before the same tag / value is tried on another command)
+
+def _probe_words(part, parts):
+    from mc import validgen as G, scenarios as S
+    k = 0
+    for c in S.all_commands():
+        for w in G.crosstag_scripts(c):
+            k += 1
+            if k % parts == part:
+                yield G.PREFIX + tuple(w)
+        for w in G.command_scripts(c, max_slots=1, max_forms=30):
+            k += 1
+            if k % parts == part:
+                yield G.PREFIX + tuple(w)
+
+
+def pollute_task(t):
+    """every valid form of every command is parsed (fresh parsers) and every definition of the factory pool is added to a FiltersSet;
+    THEN every probe (each tag any command knows on every other command; valid forms again) is parsed: a verdict that differs from
+    the reference's is a candidate, confirmed (run) by parsing the same probe alone in a fresh interpreter"""
+    part, parts = t
+    from mc import validgen as G, scenarios as S, parser_engine as E, factory_engine as F
+    ns = seams.load()
+    n = 0
+    for c in S.all_commands():
+        for w in G.command_scripts(c, max_slots=1, max_forms=30):
+            E.execute(G.PREFIX + tuple(w), want_config=False)
+            n += 1
+    for w in G.test_scripts(1):
+        E.execute(G.PREFIX + tuple(w), want_config=False)
+        n += 1
+    fs = F.new_set(ns)
+    for d, (c, a, mt) in sorted(F.DEFS.items()):
+        try:
+            fs.addfilter(d, list(c), list(a), mt)
+            str(fs)
+        except Exception:  # noqa
+            pass
+        n += 1
+    cands = []
+    for w in _probe_words(part, parts):
+        case = E.execute(w, want_config=False)
+        n += 1
+        if E.oracle_c01(case):
+            cands.append((list(w), case.obs.brief()))
+    return dict(n=n, candidates=cands)
+
+
+def alone_task(t):
+    """the probe alone in a fresh interpreter: -> (word, outcome there, does it agree with the reference there)"""
+    w, after = t
+    from mc import parser_engine as E
+    case = E.execute(tuple(w), want_config=False)
+    return dict(word=w, after=after, alone=case.obs.brief(), alone_ok=not E.oracle_c01(case))
+
+
 def replay_task(t):
     hist, base_parse, base_fs = t
     ns = seams.load()
@@ -437,7 +506,22 @@ def replay_task(t):
     return run_history(ns, hist, base_parse, base_fs)
 
 
+def S_PREFIX():
+    from mc import validgen as G
+    return G.PREFIX
+
+
 def replay(payload):
+    if payload.get("case", {}).get("pollute_word"):
+        w = payload["case"]["pollute_word"]
+        out = []
+        for r in pool.run_tasks("checks.c13:pollute_task", [(i, 16) for i in range(16)], fresh_each=True, chunksize=1):
+            for c in r["candidates"]:
+                if c[0] == w:
+                    a = pool.run_tasks("checks.c13:alone_task", [c], fresh_each=True, chunksize=1)[0]
+                    if a["alone_ok"] and a["alone"] != a["after"]:
+                        out.append({"property": "C13", "signature": payload["signature"], "what": "verdict depends on history", "witness": payload.get("witness"), "observed": a["after"]})
+        return out
     """everything runs in forked workers so that the calling process stays pristine"""
     seams.load()
     if payload["case"].get("rep"):
